@@ -231,6 +231,10 @@ type Raft struct {
 	// Indicates that Stop is still releasing the resources of this node.
 	stopping bool
 
+	// Indicates that this node has received prevotes from a quorum and
+	// has not started the election those prevotes are for yet.
+	prevoteWon bool
+
 	wg sync.WaitGroup
 
 	mu sync.Mutex
@@ -1330,7 +1334,15 @@ func (r *Raft) election() {
 		r.becomePreCandidate()
 	}
 	if r.state == Candidate {
-		r.becomeCandidate()
+		// Only a quorum of prevotes entitles this node to increment its term. A candidate whose
+		// election did not succeed asks for prevotes again: otherwise a candidate that has been
+		// cut off would keep incrementing its term and depose a healthy leader when it returns.
+		if r.prevoteWon {
+			r.prevoteWon = false
+			r.becomeCandidate()
+		} else {
+			r.becomePreCandidate()
+		}
 	}
 
 	r.sendRequestVoteToPeers()
@@ -1415,6 +1427,7 @@ func (r *Raft) sendRequestVote(id string, address string, votes *int, prevote bo
 		// Signal to the election loop to start an election so that the real election
 		// does not have to wait until the election ticker goes off again.
 		r.state = Candidate
+		r.prevoteWon = true
 		r.electionCond.Broadcast()
 	}
 
@@ -2058,6 +2071,7 @@ func (r *Raft) becomeFollower(leaderID string, term uint64) {
 	// that does not change the term, otherwise a second vote could be granted.
 	votedFor, sameTerm := r.votedFor, term == r.currentTerm
 	r.state = Follower
+	r.prevoteWon = false
 	r.currentTerm = term
 	r.leaderID = leaderID
 	r.votedFor = ""
